@@ -38,13 +38,13 @@
         //@ before (date,bytes)=<
         //@ tag tags.no_second_dispatch.date C13
             proof { assert(!seen.contains(170u16)); seen = seen.insert(170u16) ; }
-        //@ before returnErr(zvt_builder::ZVTError::DuplicateTag(zvt_builder::Tag(170u16)
+        //@ before returnErr(zvt_builder::ZVTError::DuplicateTag(
         //@ tag tags.duplicate_error_is_true.date C13
             proof { assert(seen.contains(170u16)) ; }
         //@ before (time,bytes)=<
         //@ tag tags.no_second_dispatch.time C13
             proof { assert(!seen.contains(12u16)); seen = seen.insert(12u16) ; }
-        //@ before returnErr(zvt_builder::ZVTError::DuplicateTag(zvt_builder::Tag(12u16)
+        //@ before returnErr(zvt_builder::ZVTError::DuplicateTag(
         //@ tag tags.duplicate_error_is_true.time C13
             proof { assert(seen.contains(12u16)) ; }
         //@ before letmutas_vec
@@ -234,127 +234,127 @@
         //@ before (amount,bytes)=<
         //@ tag tags.no_second_dispatch.amount C13
             proof { assert(!seen.contains(4u16)); seen = seen.insert(4u16) ; }
-        //@ before returnErr(zvt_builder::ZVTError::DuplicateTag(zvt_builder::Tag(4u16)
+        //@ before returnErr(zvt_builder::ZVTError::DuplicateTag(
         //@ tag tags.duplicate_error_is_true.amount C13
             proof { assert(seen.contains(4u16)) ; }
         //@ before (trace_number,bytes)=<
         //@ tag tags.no_second_dispatch.trace_number C13
             proof { assert(!seen.contains(11u16)); seen = seen.insert(11u16) ; }
-        //@ before returnErr(zvt_builder::ZVTError::DuplicateTag(zvt_builder::Tag(11u16)
+        //@ before returnErr(zvt_builder::ZVTError::DuplicateTag(
         //@ tag tags.duplicate_error_is_true.trace_number C13
             proof { assert(seen.contains(11u16)) ; }
         //@ before (time,bytes)=<
         //@ tag tags.no_second_dispatch.time C13
             proof { assert(!seen.contains(12u16)); seen = seen.insert(12u16) ; }
-        //@ before returnErr(zvt_builder::ZVTError::DuplicateTag(zvt_builder::Tag(12u16)
+        //@ before returnErr(zvt_builder::ZVTError::DuplicateTag(
         //@ tag tags.duplicate_error_is_true.time C13
             proof { assert(seen.contains(12u16)) ; }
         //@ before (date,bytes)=<
         //@ tag tags.no_second_dispatch.date C13
             proof { assert(!seen.contains(13u16)); seen = seen.insert(13u16) ; }
-        //@ before returnErr(zvt_builder::ZVTError::DuplicateTag(zvt_builder::Tag(13u16)
+        //@ before returnErr(zvt_builder::ZVTError::DuplicateTag(
         //@ tag tags.duplicate_error_is_true.date C13
             proof { assert(seen.contains(13u16)) ; }
         //@ before (expiry_date,bytes)=<
         //@ tag tags.no_second_dispatch.expiry_date C13
             proof { assert(!seen.contains(14u16)); seen = seen.insert(14u16) ; }
-        //@ before returnErr(zvt_builder::ZVTError::DuplicateTag(zvt_builder::Tag(14u16)
+        //@ before returnErr(zvt_builder::ZVTError::DuplicateTag(
         //@ tag tags.duplicate_error_is_true.expiry_date C13
             proof { assert(seen.contains(14u16)) ; }
         //@ before (card_sequence_number,bytes)=<
         //@ tag tags.no_second_dispatch.card_sequence_number C13
             proof { assert(!seen.contains(23u16)); seen = seen.insert(23u16) ; }
-        //@ before returnErr(zvt_builder::ZVTError::DuplicateTag(zvt_builder::Tag(23u16)
+        //@ before returnErr(zvt_builder::ZVTError::DuplicateTag(
         //@ tag tags.duplicate_error_is_true.card_sequence_number C13
             proof { assert(seen.contains(23u16)) ; }
         //@ before (card_type,bytes)=<
         //@ tag tags.no_second_dispatch.card_type C13
             proof { assert(!seen.contains(25u16)); seen = seen.insert(25u16) ; }
-        //@ before returnErr(zvt_builder::ZVTError::DuplicateTag(zvt_builder::Tag(25u16)
+        //@ before returnErr(zvt_builder::ZVTError::DuplicateTag(
         //@ tag tags.duplicate_error_is_true.card_type C13
             proof { assert(seen.contains(25u16)) ; }
         //@ before (card_number,bytes)=<
         //@ tag tags.no_second_dispatch.card_number C13
             proof { assert(!seen.contains(34u16)); seen = seen.insert(34u16) ; }
-        //@ before returnErr(zvt_builder::ZVTError::DuplicateTag(zvt_builder::Tag(34u16)
+        //@ before returnErr(zvt_builder::ZVTError::DuplicateTag(
         //@ tag tags.duplicate_error_is_true.card_number C13
             proof { assert(seen.contains(34u16)) ; }
         //@ before (track_2_data,bytes)=<
         //@ tag tags.no_second_dispatch.track_2_data C13
             proof { assert(!seen.contains(35u16)); seen = seen.insert(35u16) ; }
-        //@ before returnErr(zvt_builder::ZVTError::DuplicateTag(zvt_builder::Tag(35u16)
+        //@ before returnErr(zvt_builder::ZVTError::DuplicateTag(
         //@ tag tags.duplicate_error_is_true.track_2_data C13
             proof { assert(seen.contains(35u16)) ; }
         //@ before (result_code,bytes)=<
         //@ tag tags.no_second_dispatch.result_code C13
             proof { assert(!seen.contains(39u16)); seen = seen.insert(39u16) ; }
-        //@ before returnErr(zvt_builder::ZVTError::DuplicateTag(zvt_builder::Tag(39u16)
+        //@ before returnErr(zvt_builder::ZVTError::DuplicateTag(
         //@ tag tags.duplicate_error_is_true.result_code C13
             proof { assert(seen.contains(39u16)) ; }
         //@ before (terminal_id,bytes)=<
         //@ tag tags.no_second_dispatch.terminal_id C13
             proof { assert(!seen.contains(41u16)); seen = seen.insert(41u16) ; }
-        //@ before returnErr(zvt_builder::ZVTError::DuplicateTag(zvt_builder::Tag(41u16)
+        //@ before returnErr(zvt_builder::ZVTError::DuplicateTag(
         //@ tag tags.duplicate_error_is_true.terminal_id C13
             proof { assert(seen.contains(41u16)) ; }
         //@ before (vu_number,bytes)=<
         //@ tag tags.no_second_dispatch.vu_number C13
             proof { assert(!seen.contains(42u16)); seen = seen.insert(42u16) ; }
-        //@ before returnErr(zvt_builder::ZVTError::DuplicateTag(zvt_builder::Tag(42u16)
+        //@ before returnErr(zvt_builder::ZVTError::DuplicateTag(
         //@ tag tags.duplicate_error_is_true.vu_number C13
             proof { assert(seen.contains(42u16)) ; }
         //@ before (aid_authorization_attribute,bytes)=<
         //@ tag tags.no_second_dispatch.aid_authorization_attribute C13
             proof { assert(!seen.contains(59u16)); seen = seen.insert(59u16) ; }
-        //@ before returnErr(zvt_builder::ZVTError::DuplicateTag(zvt_builder::Tag(59u16)
+        //@ before returnErr(zvt_builder::ZVTError::DuplicateTag(
         //@ tag tags.duplicate_error_is_true.aid_authorization_attribute C13
             proof { assert(seen.contains(59u16)) ; }
         //@ before (additional_text,bytes)=<
         //@ tag tags.no_second_dispatch.additional_text C13
             proof { assert(!seen.contains(60u16)); seen = seen.insert(60u16) ; }
-        //@ before returnErr(zvt_builder::ZVTError::DuplicateTag(zvt_builder::Tag(60u16)
+        //@ before returnErr(zvt_builder::ZVTError::DuplicateTag(
         //@ tag tags.duplicate_error_is_true.additional_text C13
             proof { assert(seen.contains(60u16)) ; }
         //@ before (single_amounts,bytes)=<
         //@ tag tags.no_second_dispatch.single_amounts C13
             proof { assert(!seen.contains(96u16)); seen = seen.insert(96u16) ; }
-        //@ before returnErr(zvt_builder::ZVTError::DuplicateTag(zvt_builder::Tag(96u16)
+        //@ before returnErr(zvt_builder::ZVTError::DuplicateTag(
         //@ tag tags.duplicate_error_is_true.single_amounts C13
             proof { assert(seen.contains(96u16)) ; }
         //@ before (receipt_no,bytes)=<
         //@ tag tags.no_second_dispatch.receipt_no C13
             proof { assert(!seen.contains(135u16)); seen = seen.insert(135u16) ; }
-        //@ before returnErr(zvt_builder::ZVTError::DuplicateTag(zvt_builder::Tag(135u16)
+        //@ before returnErr(zvt_builder::ZVTError::DuplicateTag(
         //@ tag tags.duplicate_error_is_true.receipt_no C13
             proof { assert(seen.contains(135u16)) ; }
         //@ before (currency,bytes)=<
         //@ tag tags.no_second_dispatch.currency C13
             proof { assert(!seen.contains(73u16)); seen = seen.insert(73u16) ; }
-        //@ before returnErr(zvt_builder::ZVTError::DuplicateTag(zvt_builder::Tag(73u16)
+        //@ before returnErr(zvt_builder::ZVTError::DuplicateTag(
         //@ tag tags.duplicate_error_is_true.currency C13
             proof { assert(seen.contains(73u16)) ; }
         //@ before (zvt_card_type,bytes)=<
         //@ tag tags.no_second_dispatch.zvt_card_type C13
             proof { assert(!seen.contains(138u16)); seen = seen.insert(138u16) ; }
-        //@ before returnErr(zvt_builder::ZVTError::DuplicateTag(zvt_builder::Tag(138u16)
+        //@ before returnErr(zvt_builder::ZVTError::DuplicateTag(
         //@ tag tags.duplicate_error_is_true.zvt_card_type C13
             proof { assert(seen.contains(138u16)) ; }
         //@ before (card_name,bytes)=<
         //@ tag tags.no_second_dispatch.card_name C13
             proof { assert(!seen.contains(139u16)); seen = seen.insert(139u16) ; }
-        //@ before returnErr(zvt_builder::ZVTError::DuplicateTag(zvt_builder::Tag(139u16)
+        //@ before returnErr(zvt_builder::ZVTError::DuplicateTag(
         //@ tag tags.duplicate_error_is_true.card_name C13
             proof { assert(seen.contains(139u16)) ; }
         //@ before (zvt_card_type_id,bytes)=<
         //@ tag tags.no_second_dispatch.zvt_card_type_id C13
             proof { assert(!seen.contains(140u16)); seen = seen.insert(140u16) ; }
-        //@ before returnErr(zvt_builder::ZVTError::DuplicateTag(zvt_builder::Tag(140u16)
+        //@ before returnErr(zvt_builder::ZVTError::DuplicateTag(
         //@ tag tags.duplicate_error_is_true.zvt_card_type_id C13
             proof { assert(seen.contains(140u16)) ; }
         //@ before (tlv,bytes)=<
         //@ tag tags.no_second_dispatch.tlv C13
             proof { assert(!seen.contains(6u16)); seen = seen.insert(6u16) ; }
-        //@ before returnErr(zvt_builder::ZVTError::DuplicateTag(zvt_builder::Tag(6u16)
+        //@ before returnErr(zvt_builder::ZVTError::DuplicateTag(
         //@ tag tags.duplicate_error_is_true.tlv C13
             proof { assert(seen.contains(6u16)) ; }
         //@ before letmutas_vec
@@ -492,13 +492,13 @@
         //@ before (service_byte,bytes)=<
         //@ tag tags.no_second_dispatch.service_byte C13
             proof { assert(!seen.contains(3u16)); seen = seen.insert(3u16) ; }
-        //@ before returnErr(zvt_builder::ZVTError::DuplicateTag(zvt_builder::Tag(3u16)
+        //@ before returnErr(zvt_builder::ZVTError::DuplicateTag(
         //@ tag tags.duplicate_error_is_true.service_byte C13
             proof { assert(seen.contains(3u16)) ; }
         //@ before (tlv,bytes)=<
         //@ tag tags.no_second_dispatch.tlv C13
             proof { assert(!seen.contains(6u16)); seen = seen.insert(6u16) ; }
-        //@ before returnErr(zvt_builder::ZVTError::DuplicateTag(zvt_builder::Tag(6u16)
+        //@ before returnErr(zvt_builder::ZVTError::DuplicateTag(
         //@ tag tags.duplicate_error_is_true.tlv C13
             proof { assert(seen.contains(6u16)) ; }
         //@ before letmutas_vec
@@ -570,7 +570,7 @@
         //@ before (tlv,bytes)=<
         //@ tag tags.no_second_dispatch.tlv C13
             proof { assert(!seen.contains(6u16)); seen = seen.insert(6u16) ; }
-        //@ before returnErr(zvt_builder::ZVTError::DuplicateTag(zvt_builder::Tag(6u16)
+        //@ before returnErr(zvt_builder::ZVTError::DuplicateTag(
         //@ tag tags.duplicate_error_is_true.tlv C13
             proof { assert(seen.contains(6u16)) ; }
         //@ before letmutas_vec
@@ -642,25 +642,25 @@
         //@ before (result_code,bytes)=<
         //@ tag tags.no_second_dispatch.result_code C13
             proof { assert(!seen.contains(39u16)); seen = seen.insert(39u16) ; }
-        //@ before returnErr(zvt_builder::ZVTError::DuplicateTag(zvt_builder::Tag(39u16)
+        //@ before returnErr(zvt_builder::ZVTError::DuplicateTag(
         //@ tag tags.duplicate_error_is_true.result_code C13
             proof { assert(seen.contains(39u16)) ; }
         //@ before (status_byte,bytes)=<
         //@ tag tags.no_second_dispatch.status_byte C13
             proof { assert(!seen.contains(25u16)); seen = seen.insert(25u16) ; }
-        //@ before returnErr(zvt_builder::ZVTError::DuplicateTag(zvt_builder::Tag(25u16)
+        //@ before returnErr(zvt_builder::ZVTError::DuplicateTag(
         //@ tag tags.duplicate_error_is_true.status_byte C13
             proof { assert(seen.contains(25u16)) ; }
         //@ before (terminal_id,bytes)=<
         //@ tag tags.no_second_dispatch.terminal_id C13
             proof { assert(!seen.contains(41u16)); seen = seen.insert(41u16) ; }
-        //@ before returnErr(zvt_builder::ZVTError::DuplicateTag(zvt_builder::Tag(41u16)
+        //@ before returnErr(zvt_builder::ZVTError::DuplicateTag(
         //@ tag tags.duplicate_error_is_true.terminal_id C13
             proof { assert(seen.contains(41u16)) ; }
         //@ before (currency,bytes)=<
         //@ tag tags.no_second_dispatch.currency C13
             proof { assert(!seen.contains(73u16)); seen = seen.insert(73u16) ; }
-        //@ before returnErr(zvt_builder::ZVTError::DuplicateTag(zvt_builder::Tag(73u16)
+        //@ before returnErr(zvt_builder::ZVTError::DuplicateTag(
         //@ tag tags.duplicate_error_is_true.currency C13
             proof { assert(seen.contains(73u16)) ; }
         //@ before letmutas_vec
@@ -732,7 +732,7 @@
         //@ before (tlv,bytes)=<
         //@ tag tags.no_second_dispatch.tlv C13
             proof { assert(!seen.contains(6u16)); seen = seen.insert(6u16) ; }
-        //@ before returnErr(zvt_builder::ZVTError::DuplicateTag(zvt_builder::Tag(6u16)
+        //@ before returnErr(zvt_builder::ZVTError::DuplicateTag(
         //@ tag tags.duplicate_error_is_true.tlv C13
             proof { assert(seen.contains(6u16)) ; }
         //@ before letmutas_vec
@@ -936,7 +936,7 @@
         //@ before (terminal_id,bytes)=<
         //@ tag tags.no_second_dispatch.terminal_id C13
             proof { assert(!seen.contains(41u16)); seen = seen.insert(41u16) ; }
-        //@ before returnErr(zvt_builder::ZVTError::DuplicateTag(zvt_builder::Tag(41u16)
+        //@ before returnErr(zvt_builder::ZVTError::DuplicateTag(
         //@ tag tags.duplicate_error_is_true.terminal_id C13
             proof { assert(seen.contains(41u16)) ; }
         //@ before letmutas_vec
@@ -1074,7 +1074,7 @@
         //@ before (tlv,bytes)=<
         //@ tag tags.no_second_dispatch.tlv C13
             proof { assert(!seen.contains(6u16)); seen = seen.insert(6u16) ; }
-        //@ before returnErr(zvt_builder::ZVTError::DuplicateTag(zvt_builder::Tag(6u16)
+        //@ before returnErr(zvt_builder::ZVTError::DuplicateTag(
         //@ tag tags.duplicate_error_is_true.tlv C13
             proof { assert(seen.contains(6u16)) ; }
         //@ before letmutas_vec
@@ -1146,7 +1146,7 @@
         //@ before (receipt_no,bytes)=<
         //@ tag tags.no_second_dispatch.receipt_no C13
             proof { assert(!seen.contains(135u16)); seen = seen.insert(135u16) ; }
-        //@ before returnErr(zvt_builder::ZVTError::DuplicateTag(zvt_builder::Tag(135u16)
+        //@ before returnErr(zvt_builder::ZVTError::DuplicateTag(
         //@ tag tags.duplicate_error_is_true.receipt_no C13
             proof { assert(seen.contains(135u16)) ; }
         //@ before letmutas_vec
@@ -1218,73 +1218,73 @@
         //@ before (amount,bytes)=<
         //@ tag tags.no_second_dispatch.amount C13
             proof { assert(!seen.contains(4u16)); seen = seen.insert(4u16) ; }
-        //@ before returnErr(zvt_builder::ZVTError::DuplicateTag(zvt_builder::Tag(4u16)
+        //@ before returnErr(zvt_builder::ZVTError::DuplicateTag(
         //@ tag tags.duplicate_error_is_true.amount C13
             proof { assert(seen.contains(4u16)) ; }
         //@ before (currency,bytes)=<
         //@ tag tags.no_second_dispatch.currency C13
             proof { assert(!seen.contains(73u16)); seen = seen.insert(73u16) ; }
-        //@ before returnErr(zvt_builder::ZVTError::DuplicateTag(zvt_builder::Tag(73u16)
+        //@ before returnErr(zvt_builder::ZVTError::DuplicateTag(
         //@ tag tags.duplicate_error_is_true.currency C13
             proof { assert(seen.contains(73u16)) ; }
         //@ before (payment_type,bytes)=<
         //@ tag tags.no_second_dispatch.payment_type C13
             proof { assert(!seen.contains(25u16)); seen = seen.insert(25u16) ; }
-        //@ before returnErr(zvt_builder::ZVTError::DuplicateTag(zvt_builder::Tag(25u16)
+        //@ before returnErr(zvt_builder::ZVTError::DuplicateTag(
         //@ tag tags.duplicate_error_is_true.payment_type C13
             proof { assert(seen.contains(25u16)) ; }
         //@ before (expiry_date,bytes)=<
         //@ tag tags.no_second_dispatch.expiry_date C13
             proof { assert(!seen.contains(14u16)); seen = seen.insert(14u16) ; }
-        //@ before returnErr(zvt_builder::ZVTError::DuplicateTag(zvt_builder::Tag(14u16)
+        //@ before returnErr(zvt_builder::ZVTError::DuplicateTag(
         //@ tag tags.duplicate_error_is_true.expiry_date C13
             proof { assert(seen.contains(14u16)) ; }
         //@ before (card_number,bytes)=<
         //@ tag tags.no_second_dispatch.card_number C13
             proof { assert(!seen.contains(34u16)); seen = seen.insert(34u16) ; }
-        //@ before returnErr(zvt_builder::ZVTError::DuplicateTag(zvt_builder::Tag(34u16)
+        //@ before returnErr(zvt_builder::ZVTError::DuplicateTag(
         //@ tag tags.duplicate_error_is_true.card_number C13
             proof { assert(seen.contains(34u16)) ; }
         //@ before (track_2_data,bytes)=<
         //@ tag tags.no_second_dispatch.track_2_data C13
             proof { assert(!seen.contains(35u16)); seen = seen.insert(35u16) ; }
-        //@ before returnErr(zvt_builder::ZVTError::DuplicateTag(zvt_builder::Tag(35u16)
+        //@ before returnErr(zvt_builder::ZVTError::DuplicateTag(
         //@ tag tags.duplicate_error_is_true.track_2_data C13
             proof { assert(seen.contains(35u16)) ; }
         //@ before (timeout,bytes)=<
         //@ tag tags.no_second_dispatch.timeout C13
             proof { assert(!seen.contains(1u16)); seen = seen.insert(1u16) ; }
-        //@ before returnErr(zvt_builder::ZVTError::DuplicateTag(zvt_builder::Tag(1u16)
+        //@ before returnErr(zvt_builder::ZVTError::DuplicateTag(
         //@ tag tags.duplicate_error_is_true.timeout C13
             proof { assert(seen.contains(1u16)) ; }
         //@ before (maximum_no_of_status_info,bytes)=<
         //@ tag tags.no_second_dispatch.maximum_no_of_status_info C13
             proof { assert(!seen.contains(2u16)); seen = seen.insert(2u16) ; }
-        //@ before returnErr(zvt_builder::ZVTError::DuplicateTag(zvt_builder::Tag(2u16)
+        //@ before returnErr(zvt_builder::ZVTError::DuplicateTag(
         //@ tag tags.duplicate_error_is_true.maximum_no_of_status_info C13
             proof { assert(seen.contains(2u16)) ; }
         //@ before (pump_no,bytes)=<
         //@ tag tags.no_second_dispatch.pump_no C13
             proof { assert(!seen.contains(5u16)); seen = seen.insert(5u16) ; }
-        //@ before returnErr(zvt_builder::ZVTError::DuplicateTag(zvt_builder::Tag(5u16)
+        //@ before returnErr(zvt_builder::ZVTError::DuplicateTag(
         //@ tag tags.duplicate_error_is_true.pump_no C13
             proof { assert(seen.contains(5u16)) ; }
         //@ before (additional_text,bytes)=<
         //@ tag tags.no_second_dispatch.additional_text C13
             proof { assert(!seen.contains(60u16)); seen = seen.insert(60u16) ; }
-        //@ before returnErr(zvt_builder::ZVTError::DuplicateTag(zvt_builder::Tag(60u16)
+        //@ before returnErr(zvt_builder::ZVTError::DuplicateTag(
         //@ tag tags.duplicate_error_is_true.additional_text C13
             proof { assert(seen.contains(60u16)) ; }
         //@ before (zvt_card_type,bytes)=<
         //@ tag tags.no_second_dispatch.zvt_card_type C13
             proof { assert(!seen.contains(138u16)); seen = seen.insert(138u16) ; }
-        //@ before returnErr(zvt_builder::ZVTError::DuplicateTag(zvt_builder::Tag(138u16)
+        //@ before returnErr(zvt_builder::ZVTError::DuplicateTag(
         //@ tag tags.duplicate_error_is_true.zvt_card_type C13
             proof { assert(seen.contains(138u16)) ; }
         //@ before (tlv,bytes)=<
         //@ tag tags.no_second_dispatch.tlv C13
             proof { assert(!seen.contains(6u16)); seen = seen.insert(6u16) ; }
-        //@ before returnErr(zvt_builder::ZVTError::DuplicateTag(zvt_builder::Tag(6u16)
+        //@ before returnErr(zvt_builder::ZVTError::DuplicateTag(
         //@ tag tags.duplicate_error_is_true.tlv C13
             proof { assert(seen.contains(6u16)) ; }
         //@ before letmutas_vec
@@ -1356,85 +1356,85 @@
         //@ before (amount,bytes)=<
         //@ tag tags.no_second_dispatch.amount C13
             proof { assert(!seen.contains(4u16)); seen = seen.insert(4u16) ; }
-        //@ before returnErr(zvt_builder::ZVTError::DuplicateTag(zvt_builder::Tag(4u16)
+        //@ before returnErr(zvt_builder::ZVTError::DuplicateTag(
         //@ tag tags.duplicate_error_is_true.amount C13
             proof { assert(seen.contains(4u16)) ; }
         //@ before (currency,bytes)=<
         //@ tag tags.no_second_dispatch.currency C13
             proof { assert(!seen.contains(73u16)); seen = seen.insert(73u16) ; }
-        //@ before returnErr(zvt_builder::ZVTError::DuplicateTag(zvt_builder::Tag(73u16)
+        //@ before returnErr(zvt_builder::ZVTError::DuplicateTag(
         //@ tag tags.duplicate_error_is_true.currency C13
             proof { assert(seen.contains(73u16)) ; }
         //@ before (payment_type,bytes)=<
         //@ tag tags.no_second_dispatch.payment_type C13
             proof { assert(!seen.contains(25u16)); seen = seen.insert(25u16) ; }
-        //@ before returnErr(zvt_builder::ZVTError::DuplicateTag(zvt_builder::Tag(25u16)
+        //@ before returnErr(zvt_builder::ZVTError::DuplicateTag(
         //@ tag tags.duplicate_error_is_true.payment_type C13
             proof { assert(seen.contains(25u16)) ; }
         //@ before (expiry_date,bytes)=<
         //@ tag tags.no_second_dispatch.expiry_date C13
             proof { assert(!seen.contains(14u16)); seen = seen.insert(14u16) ; }
-        //@ before returnErr(zvt_builder::ZVTError::DuplicateTag(zvt_builder::Tag(14u16)
+        //@ before returnErr(zvt_builder::ZVTError::DuplicateTag(
         //@ tag tags.duplicate_error_is_true.expiry_date C13
             proof { assert(seen.contains(14u16)) ; }
         //@ before (card_number,bytes)=<
         //@ tag tags.no_second_dispatch.card_number C13
             proof { assert(!seen.contains(34u16)); seen = seen.insert(34u16) ; }
-        //@ before returnErr(zvt_builder::ZVTError::DuplicateTag(zvt_builder::Tag(34u16)
+        //@ before returnErr(zvt_builder::ZVTError::DuplicateTag(
         //@ tag tags.duplicate_error_is_true.card_number C13
             proof { assert(seen.contains(34u16)) ; }
         //@ before (track_2_data,bytes)=<
         //@ tag tags.no_second_dispatch.track_2_data C13
             proof { assert(!seen.contains(35u16)); seen = seen.insert(35u16) ; }
-        //@ before returnErr(zvt_builder::ZVTError::DuplicateTag(zvt_builder::Tag(35u16)
+        //@ before returnErr(zvt_builder::ZVTError::DuplicateTag(
         //@ tag tags.duplicate_error_is_true.track_2_data C13
             proof { assert(seen.contains(35u16)) ; }
         //@ before (timeout,bytes)=<
         //@ tag tags.no_second_dispatch.timeout C13
             proof { assert(!seen.contains(1u16)); seen = seen.insert(1u16) ; }
-        //@ before returnErr(zvt_builder::ZVTError::DuplicateTag(zvt_builder::Tag(1u16)
+        //@ before returnErr(zvt_builder::ZVTError::DuplicateTag(
         //@ tag tags.duplicate_error_is_true.timeout C13
             proof { assert(seen.contains(1u16)) ; }
         //@ before (maximum_no_of_status_info,bytes)=<
         //@ tag tags.no_second_dispatch.maximum_no_of_status_info C13
             proof { assert(!seen.contains(2u16)); seen = seen.insert(2u16) ; }
-        //@ before returnErr(zvt_builder::ZVTError::DuplicateTag(zvt_builder::Tag(2u16)
+        //@ before returnErr(zvt_builder::ZVTError::DuplicateTag(
         //@ tag tags.duplicate_error_is_true.maximum_no_of_status_info C13
             proof { assert(seen.contains(2u16)) ; }
         //@ before (pump_no,bytes)=<
         //@ tag tags.no_second_dispatch.pump_no C13
             proof { assert(!seen.contains(5u16)); seen = seen.insert(5u16) ; }
-        //@ before returnErr(zvt_builder::ZVTError::DuplicateTag(zvt_builder::Tag(5u16)
+        //@ before returnErr(zvt_builder::ZVTError::DuplicateTag(
         //@ tag tags.duplicate_error_is_true.pump_no C13
             proof { assert(seen.contains(5u16)) ; }
         //@ before (trace_number,bytes)=<
         //@ tag tags.no_second_dispatch.trace_number C13
             proof { assert(!seen.contains(11u16)); seen = seen.insert(11u16) ; }
-        //@ before returnErr(zvt_builder::ZVTError::DuplicateTag(zvt_builder::Tag(11u16)
+        //@ before returnErr(zvt_builder::ZVTError::DuplicateTag(
         //@ tag tags.duplicate_error_is_true.trace_number C13
             proof { assert(seen.contains(11u16)) ; }
         //@ before (aid_authorization_attribute,bytes)=<
         //@ tag tags.no_second_dispatch.aid_authorization_attribute C13
             proof { assert(!seen.contains(59u16)); seen = seen.insert(59u16) ; }
-        //@ before returnErr(zvt_builder::ZVTError::DuplicateTag(zvt_builder::Tag(59u16)
+        //@ before returnErr(zvt_builder::ZVTError::DuplicateTag(
         //@ tag tags.duplicate_error_is_true.aid_authorization_attribute C13
             proof { assert(seen.contains(59u16)) ; }
         //@ before (additional_text,bytes)=<
         //@ tag tags.no_second_dispatch.additional_text C13
             proof { assert(!seen.contains(60u16)); seen = seen.insert(60u16) ; }
-        //@ before returnErr(zvt_builder::ZVTError::DuplicateTag(zvt_builder::Tag(60u16)
+        //@ before returnErr(zvt_builder::ZVTError::DuplicateTag(
         //@ tag tags.duplicate_error_is_true.additional_text C13
             proof { assert(seen.contains(60u16)) ; }
         //@ before (zvt_card_type,bytes)=<
         //@ tag tags.no_second_dispatch.zvt_card_type C13
             proof { assert(!seen.contains(138u16)); seen = seen.insert(138u16) ; }
-        //@ before returnErr(zvt_builder::ZVTError::DuplicateTag(zvt_builder::Tag(138u16)
+        //@ before returnErr(zvt_builder::ZVTError::DuplicateTag(
         //@ tag tags.duplicate_error_is_true.zvt_card_type C13
             proof { assert(seen.contains(138u16)) ; }
         //@ before (tlv,bytes)=<
         //@ tag tags.no_second_dispatch.tlv C13
             proof { assert(!seen.contains(6u16)); seen = seen.insert(6u16) ; }
-        //@ before returnErr(zvt_builder::ZVTError::DuplicateTag(zvt_builder::Tag(6u16)
+        //@ before returnErr(zvt_builder::ZVTError::DuplicateTag(
         //@ tag tags.duplicate_error_is_true.tlv C13
             proof { assert(seen.contains(6u16)) ; }
         //@ before letmutas_vec
@@ -1506,31 +1506,31 @@
         //@ before (receipt_no,bytes)=<
         //@ tag tags.no_second_dispatch.receipt_no C13
             proof { assert(!seen.contains(135u16)); seen = seen.insert(135u16) ; }
-        //@ before returnErr(zvt_builder::ZVTError::DuplicateTag(zvt_builder::Tag(135u16)
+        //@ before returnErr(zvt_builder::ZVTError::DuplicateTag(
         //@ tag tags.duplicate_error_is_true.receipt_no C13
             proof { assert(seen.contains(135u16)) ; }
         //@ before (amount,bytes)=<
         //@ tag tags.no_second_dispatch.amount C13
             proof { assert(!seen.contains(4u16)); seen = seen.insert(4u16) ; }
-        //@ before returnErr(zvt_builder::ZVTError::DuplicateTag(zvt_builder::Tag(4u16)
+        //@ before returnErr(zvt_builder::ZVTError::DuplicateTag(
         //@ tag tags.duplicate_error_is_true.amount C13
             proof { assert(seen.contains(4u16)) ; }
         //@ before (payment_type,bytes)=<
         //@ tag tags.no_second_dispatch.payment_type C13
             proof { assert(!seen.contains(25u16)); seen = seen.insert(25u16) ; }
-        //@ before returnErr(zvt_builder::ZVTError::DuplicateTag(zvt_builder::Tag(25u16)
+        //@ before returnErr(zvt_builder::ZVTError::DuplicateTag(
         //@ tag tags.duplicate_error_is_true.payment_type C13
             proof { assert(seen.contains(25u16)) ; }
         //@ before (currency,bytes)=<
         //@ tag tags.no_second_dispatch.currency C13
             proof { assert(!seen.contains(73u16)); seen = seen.insert(73u16) ; }
-        //@ before returnErr(zvt_builder::ZVTError::DuplicateTag(zvt_builder::Tag(73u16)
+        //@ before returnErr(zvt_builder::ZVTError::DuplicateTag(
         //@ tag tags.duplicate_error_is_true.currency C13
             proof { assert(seen.contains(73u16)) ; }
         //@ before (tlv,bytes)=<
         //@ tag tags.no_second_dispatch.tlv C13
             proof { assert(!seen.contains(6u16)); seen = seen.insert(6u16) ; }
-        //@ before returnErr(zvt_builder::ZVTError::DuplicateTag(zvt_builder::Tag(6u16)
+        //@ before returnErr(zvt_builder::ZVTError::DuplicateTag(
         //@ tag tags.duplicate_error_is_true.tlv C13
             proof { assert(seen.contains(6u16)) ; }
         //@ before letmutas_vec
@@ -1602,19 +1602,19 @@
         //@ before (payment_type,bytes)=<
         //@ tag tags.no_second_dispatch.payment_type C13
             proof { assert(!seen.contains(25u16)); seen = seen.insert(25u16) ; }
-        //@ before returnErr(zvt_builder::ZVTError::DuplicateTag(zvt_builder::Tag(25u16)
+        //@ before returnErr(zvt_builder::ZVTError::DuplicateTag(
         //@ tag tags.duplicate_error_is_true.payment_type C13
             proof { assert(seen.contains(25u16)) ; }
         //@ before (currency,bytes)=<
         //@ tag tags.no_second_dispatch.currency C13
             proof { assert(!seen.contains(73u16)); seen = seen.insert(73u16) ; }
-        //@ before returnErr(zvt_builder::ZVTError::DuplicateTag(zvt_builder::Tag(73u16)
+        //@ before returnErr(zvt_builder::ZVTError::DuplicateTag(
         //@ tag tags.duplicate_error_is_true.currency C13
             proof { assert(seen.contains(73u16)) ; }
         //@ before (receipt_no,bytes)=<
         //@ tag tags.no_second_dispatch.receipt_no C13
             proof { assert(!seen.contains(135u16)); seen = seen.insert(135u16) ; }
-        //@ before returnErr(zvt_builder::ZVTError::DuplicateTag(zvt_builder::Tag(135u16)
+        //@ before returnErr(zvt_builder::ZVTError::DuplicateTag(
         //@ tag tags.duplicate_error_is_true.receipt_no C13
             proof { assert(seen.contains(135u16)) ; }
         //@ before letmutas_vec
@@ -1752,7 +1752,7 @@
         //@ before (tlv,bytes)=<
         //@ tag tags.no_second_dispatch.tlv C13
             proof { assert(!seen.contains(6u16)); seen = seen.insert(6u16) ; }
-        //@ before returnErr(zvt_builder::ZVTError::DuplicateTag(zvt_builder::Tag(6u16)
+        //@ before returnErr(zvt_builder::ZVTError::DuplicateTag(
         //@ tag tags.duplicate_error_is_true.tlv C13
             proof { assert(seen.contains(6u16)) ; }
         //@ before letmutas_vec
@@ -1890,19 +1890,19 @@
         //@ before (card_type,bytes)=<
         //@ tag tags.no_second_dispatch.card_type C13
             proof { assert(!seen.contains(25u16)); seen = seen.insert(25u16) ; }
-        //@ before returnErr(zvt_builder::ZVTError::DuplicateTag(zvt_builder::Tag(25u16)
+        //@ before returnErr(zvt_builder::ZVTError::DuplicateTag(
         //@ tag tags.duplicate_error_is_true.card_type C13
             proof { assert(seen.contains(25u16)) ; }
         //@ before (dialog_control,bytes)=<
         //@ tag tags.no_second_dispatch.dialog_control C13
             proof { assert(!seen.contains(252u16)); seen = seen.insert(252u16) ; }
-        //@ before returnErr(zvt_builder::ZVTError::DuplicateTag(zvt_builder::Tag(252u16)
+        //@ before returnErr(zvt_builder::ZVTError::DuplicateTag(
         //@ tag tags.duplicate_error_is_true.dialog_control C13
             proof { assert(seen.contains(252u16)) ; }
         //@ before (tlv,bytes)=<
         //@ tag tags.no_second_dispatch.tlv C13
             proof { assert(!seen.contains(6u16)); seen = seen.insert(6u16) ; }
-        //@ before returnErr(zvt_builder::ZVTError::DuplicateTag(zvt_builder::Tag(6u16)
+        //@ before returnErr(zvt_builder::ZVTError::DuplicateTag(
         //@ tag tags.duplicate_error_is_true.tlv C13
             proof { assert(seen.contains(6u16)) ; }
         //@ before letmutas_vec
@@ -2040,7 +2040,7 @@
         //@ before (tlv,bytes)=<
         //@ tag tags.no_second_dispatch.tlv C13
             proof { assert(!seen.contains(6u16)); seen = seen.insert(6u16) ; }
-        //@ before returnErr(zvt_builder::ZVTError::DuplicateTag(zvt_builder::Tag(6u16)
+        //@ before returnErr(zvt_builder::ZVTError::DuplicateTag(
         //@ tag tags.duplicate_error_is_true.tlv C13
             proof { assert(seen.contains(6u16)) ; }
         //@ before letmutas_vec
